@@ -124,6 +124,9 @@ pub struct EnvConfig {
     pub grant_menu: Vec<usize>,
     /// once stalled the transport never takes another byte (a dead peer): no grant is offered
     pub no_grants: bool,
+    /// the transport stops taking writes from the moment the client has sealed its output
+    /// (whatever sealed it - a close, a client exception - then sits in the buffer until a grant)
+    pub stall_on_seal: bool,
     /// absolute offsets of the server->client stream at which a delivery always stops (the
     /// client reads up to there, meets would-block, and gets the rest with the next delivery):
     /// segmentation imposed on the default execution, at no deviation cost
@@ -158,6 +161,7 @@ impl Default for EnvConfig {
             grant_menu: vec![],
             no_grants: false,
             force_cuts: Vec::new(),
+            stall_on_seal: false,
             faults: vec![],
             crash_after_inbound: None,
             fail_write_call: None,
@@ -246,6 +250,7 @@ struct St {
     last_ran: Option<usize>,
     io_idle: bool,
     io_held: bool,
+    seal_stall_done: bool,
     activity_since_idle: bool,
     sleepers: Vec<u64>,
     io_gate_time: u64,
@@ -692,6 +697,7 @@ impl World {
                 last_ran: None,
                 io_idle: false,
                 io_held: false,
+                seal_stall_done: false,
                 activity_since_idle: false,
                 sleepers: Vec::new(),
                 io_gate_time: 0,
@@ -841,6 +847,13 @@ impl World {
 
     /// Batch driver: while held the I/O thread is never scheduled, so that events pile up
     /// for a single poll.
+    /// Batch driver: the stalled transport takes writes again (and says so), now.
+    pub fn force_grant(&self) {
+        let mut st = self.lock();
+        st.tr.capacity = None;
+        st.raise();
+    }
+
     pub fn hold_io(&self, held: bool) {
         let mut st = self.lock();
         st.io_held = held;
@@ -1088,6 +1101,10 @@ impl Controller for World {
                     st.gate_outbufs.push(outbuf_len);
                     st.io_timeout = timeout;
                     st.io_gate_time = verif::clock::now_ns();
+                    if st.cfg.stall_on_seal && sealed && !st.seal_stall_done {
+                        st.seal_stall_done = true;
+                        st.tr.capacity = Some(0);
+                    }
                 }
                 self.park(IO, Wait::Gate);
             }
